@@ -3,7 +3,7 @@ From Coq Require Import ZArith NArith List Bool String.
 From Valida Require Import Py Lang Defs Cond Dsl Check DocSem Path Cast Str SpecDefs RuleDefs RuleTerms Rule Spec SpecIO SpecSpell Eq Inst RunSpec.
 Import ListNotations.
 Local Open Scope string_scope.
-From Valida.Proofs Require Import Tie C02Proof RuleProof C09Proof C11Proof C11EscProof.
+From Valida.Proofs Require Import Tie C02Proof RuleProof C09Proof C11Proof C11EscProof C12Proof C11PathProof.
 
 (* For every and/or/xor tree of typed DSL leaves in the fragment [tree_in_c11] (all 7 classes x 32
    constructors; JSON-pure well-formed arguments, or types where the class / callable asks for types;
@@ -58,3 +58,30 @@ Proof. exact C11E_roundtrip_eq. Qed.
 Theorem C11_fragment_included : forall t : qtree, tree_in_c11 t = true -> tree_in_c11e t = true /\ tree_json_e t = tree_json t.
 Proof. exact tree_c11_in_c11e. Qed.
 Print Assumptions C11_tree_with_escaped_mappings. Print Assumptions C11_fragment_included.
+
+(* ---- conditions with DATA-PATH arguments ----
+   [sts] are the paths (typed path terms of the C12 fragment, no source data; any datum / multiplicity modifiers); in the
+   typed tree [t] an argument [VObj n] stands for the n-th of them; [cond_p sts t] is the condition the API builds from that
+   (C11_with_paths_is_what_the_api_builds).  The written data is pure JSON, it parses back to a condition == to the original,
+   and that condition serialises to EXACTLY the same data.  Positions: the argument of a one-parameter callable, any of the
+   arguments of a multi-parameter / var-positional callable, values of items_contain.  Excluded (counterexamples proved in
+   Proofs/C11PathProof.v, same root cause as known finding D12): a path where a TYPE is expected (dtype classes, is_instance). *)
+Theorem C11_roundtrip_with_paths : forall sts t,
+  tree_in_c11p sts t = true ->
+  exists j tm c2,
+    cond1_to_json T X (cond_p sts t) = Ok j /\ json_pure j = true /\
+    cond1_from_spec T X j = Ok (tm, c2) /\ cond1_eqb T c2 (cond_p sts t) = true /\
+    cond1_to_json T X c2 = Ok j.
+Proof. exact C11P_roundtrip. Qed.
+
+Theorem C11_with_paths_is_what_the_api_builds : forall sts t,
+  tree_in_c11p sts t = true ->
+  build1 T (dslc_map (sub (pterms sts)) (qterm t)) = Ok (cond_p sts t).
+Proof. exact C11P_cond_is_built. Qed.
+
+(* the literal fragment is the special case without paths, with the same written data *)
+Theorem C11_with_paths_includes_literals : forall t, tree_in_c11e t = true ->
+  tree_in_c11p [] t = true /\ tree_js [] t = tree_json_e t /\ cond_p [] t = cmapL (cond_of (qnorm t)).
+Proof. exact C11P_includes_c11e. Qed.
+Print Assumptions C11_roundtrip_with_paths. Print Assumptions C11_with_paths_is_what_the_api_builds.
+Print Assumptions C11_with_paths_includes_literals.
